@@ -286,7 +286,7 @@ def resolveOp2 (cw : CacheWorld) (toks : List String) : Option (CacheWorld × St
     let p ← RT.readParsed scheme name port lh ip
     let U ← RT.readUniverse uni
     let r := Resolve.resolve U p
-    let log := if r.s.isEmpty then "_" else ",".intercalate (r.s.map fun (n, t) => s!"{hex n}/{t}")
+    let log := if r.s.isEmpty then "_" else ",".intercalate (r.s.map fun (n, t) => s!"{hex (Resolve.trimDot n)}/{t}")
     some (cw, s!"res={RT.showResult r.result} err={RT.errS r.err} log={log}")
   | ["cache-reset"] => some ({}, "ok")
   | ["cache-fresh", startedAt, rcvd, ttl] => do
